@@ -218,7 +218,6 @@ def r2_counts_and_margin(ctx):
     ctx.check(good, f, f.node, "constructor: fill -> candidates -> pairwise dict -> graph", "", "constructor wiring of the pairwise graph changed")
 
 
-@shape_rule
 def r3_tiers(ctx):
     prog = ctx.prog
     f = prog.find_func("PairwiseComparisonGraph.dominating_tiers")
@@ -227,15 +226,25 @@ def r3_tiers(ctx):
     hp = astx.calls_in(f.node, "has_path")
     good = False
     if len(hp) == 1:
-        loops = [l for l in astx.enclosing_loops(hp[0], pm, f.node) if isinstance(l, ast.For)]
-        if len(loops) == 2:
-            other, cand = [astx.u(l.target) for l in loops]
+        from vk import listform
+        q = prog.resolve_expr(f.module, hp[0].func)
+        outer = [l for l in astx.enclosing_loops(hp[0], pm, f.node) if isinstance(l, ast.For)]
+        cand = astx.u(outer[-1].target) if outer else None
+        # the collection the reachable candidates are gathered in: a set comprehension, or a set filled by .add in a loop
+        sizes0 = [n for n in astx.walk_own(f.node) if isinstance(n, ast.Call) and astx.u(n.func) == "len" and n.args]
+        b = None
+        for z in sizes0:
+            b = listform.build_of(f.node, z.args[0])
+            if b is not None and any(x is hp[0] for x in ast.walk(b.loop if b.loop is not None else b.node)):
+                break
+            b = None
+        if b is not None and cand is not None:
+            other = b.var
             args = [astx.u(a) for a in hp[0].args]
-            q = prog.resolve_expr(f.module, hp[0].func)
-            lits = literals(Normalizer(f.node, inline=False).conj(astx.path_condition(f.node, hp[0], pm)))
-            adds = [c for c in astx.calls_in(f.node, "add") if c.args and astx.u(c.args[0]) == other]
-            good = q == "networkx.has_path" and args == ["self.pairwise_graph", cand, other] and all(astx.u(l.iter) == "self.candidates" for l in loops) \
-                and lits in ({f"not eq({cand}, {other})"}, {f"not eq({other}, {cand})"}) and len(adds) == 1
+            lits = b.filter_literals(f.node, Normalizer(f.node, inline=False))
+            good = q == "networkx.has_path" and args == ["self.pairwise_graph", cand, other] and astx.u(b.iter) == "self.candidates" and astx.u(outer[-1].iter) == "self.candidates" \
+                and b.kind == "map" and astx.u(b.elt) == other \
+                and lits in ({f"not eq({cand}, {other})", f"truthy(nx.has_path(self.pairwise_graph, {cand}, {other}))"}, {f"not eq({other}, {cand})", f"truthy(nx.has_path(self.pairwise_graph, {cand}, {other}))"})
     ctx.check(good, f, hp[0] if hp else f.node, "reach set of c = every other candidate reachable from c in the beats-or-ties graph", "", "reach-set computation changed")
     sizes = [n for n in astx.walk_own(f.node) if isinstance(n, ast.Assign) and isinstance(n.targets[0], ast.Subscript) and isinstance(n.value, ast.Call) and astx.u(n.value.func) == "len"]
     ctx.check(len(sizes) == 1, f, sizes[0] if sizes else f.node, "tiers are keyed by reach-set size", "", "tier key is no longer len(reach set)")
@@ -255,8 +264,8 @@ def r3_tiers(ctx):
     # consumers of tier 0
     f = prog.find_func("PairwiseComparisonGraph.has_condorcet_winner")
     N = Normalizer(f.node, inline=True, int_atoms=lambda a: True)
-    tests = [n.test for n in astx.walk_own(f.node) if isinstance(n, ast.If)]
-    k = bool_key(N.guard(tests[0])) if tests else ""
+    tests = [n.value for n in astx.walk_own(f.node) if isinstance(n, ast.Return) and n.value is not None]
+    k = bool_key(N.guard(tests[0])) if len(tests) == 1 else ""
     ctx.check(k == "eq(len(self.dominating_tiers()[0]), 1)", f, tests[0] if tests else f.node, "Condorcet winner exists iff tier 0 is a single candidate", k,
               f"has_condorcet_winner tests `{k}`")
     f = prog.find_func("PairwiseComparisonGraph.get_condorcet_winner")
